@@ -111,6 +111,7 @@ type scenario struct {
 	ChainValid bool
 	Cons       []intoto.CertificateConstraint
 	ConsName   string
+	Before     *scenario // verified first in the same process (history of length 2)
 }
 
 func star() intoto.CertificateConstraint {
@@ -363,12 +364,35 @@ func enumerate(w *world, thorough bool, emit emitter) {
 		cn = append(cn, k)
 	}
 	sort.Strings(cn)
-	for _, sc := range w.chainScenarios() {
+	chains := w.chainScenarios()
+	for _, sc := range chains {
 		for _, k := range cn {
 			s := sc
 			s.Cons, s.ConsName = cs[k], k
 			s.Name = sc.Name + "|cons=" + k
 			emit("chain", s, []string{"api", "pipeline"})
+		}
+	}
+	// histories: the same certificate is first accepted with a complete chain and then offered with trust
+	// material it does not chain to (nothing may be remembered from one verification to the next)
+	for _, bad := range chains {
+		if bad.ChainValid {
+			continue
+		}
+		for _, good := range chains {
+			if !good.ChainValid || good.Leaf != bad.Leaf {
+				continue
+			}
+			for _, k := range []string{"star", "exact"} {
+				g := good
+				g.Cons, g.ConsName = cs[k], k
+				b := bad
+				b.Cons, b.ConsName = cs[k], k
+				b.Before = &g
+				b.Class = "history-after-accepted-chain|" + bad.Class
+				b.Name = bad.Name + "|after=" + good.Name + "|cons=" + k
+				emit("chain-history", b, []string{"api", "pipeline"})
+			}
 		}
 	}
 	// (b) one attribute deviates from the all-wildcard baseline (thorough: every pair)
@@ -430,6 +454,14 @@ func enumerate(w *world, thorough bool, emit emitter) {
 
 func judge(c *mcx.Ctx, sc *scenario, level string) (obs, sig, class string) {
 	want := refAccept(sc.ChainValid, sc.Cons, sc.Attr)
+	if sc.Before != nil {
+		if level == "api" {
+			apiVerdict(sc.Before)
+		} else {
+			pipelineVerdict(c, sc.Before)
+		}
+		c.Impl(1)
+	}
 	var got bool
 	if level == "api" {
 		got, _ = apiVerdict(sc)
@@ -518,7 +550,7 @@ func init() {
 	mcx.Register(&mcx.Driver{
 		ID: "C07", Run: run, Replay: replay, Workers: 8,
 		Rule: "(a) every chain shape of a 29-element catalogue (direct, 1-2 intermediates located in layout / passed by caller / missing, expired, not yet valid, foreign root, same-subject foreign root, foreign chain with its intermediate in layout or from the caller, non-CA issuer, root absent, two roots, self-signed, no roots) x 9 constraint lists (none, wildcard, exact, wrong, wrong+wildcard, split common-name/DNS, three) observed at Step.CheckCertConstraints and through InTotoVerify on a certificate-signed link; " +
-			"(b) each of the five attributes deviating alone from an all-wildcard constraint: certificate values {absent,[a],[a,b],[a,a]} x constraint {*,[],nil,[\"\"],[a],[b],[a,b],[b,a],[a,b,c],[*,a],[a,a]} (thorough: every pair of attributes); (d) seven root constraints x valid/invalid chain with two layout roots. " +
+			"(a') for every chain shape that must be refused and shares its leaf certificate with an accepted shape: the accepted one first, then the refused one, in one process; (b) each of the five attributes deviating alone from an all-wildcard constraint: certificate values {absent,[a],[a,b],[a,a]} x constraint {*,[],nil,[\"\"],[a],[b],[a,b],[b,a],[a,b,c],[*,a],[a,a]} (thorough: every pair of attributes); (d) seven root constraints x valid/invalid chain with two layout roots. " +
 			"Distinct by construction; non-trivial = the reference decides (duplicated values/constraint entries with equal sets and non-wildcard root constraints in the completeness direction are don't-care). states = scenarios, transitions = constraints evaluated.",
 		Assumptions: []string{
 			"chain validity is known by construction; certificates are minted at run time from pool keys with validity windows of a day or more around the real clock (crypto/x509 reads the real clock)",
